@@ -150,11 +150,32 @@ class Ctx:
         return 0
 
 
+class _Safe:
+    """Wraps a pmap worker: an exception raised inside the library becomes a violation record (see main.py)."""
+
+    def __init__(self, worker):
+        self.worker = worker
+
+    def __call__(self, task):
+        import traceback
+        try:
+            return self.worker(task)
+        except Exception as ex:
+            tb = traceback.extract_tb(ex.__traceback__)
+            repo = os.path.abspath(os.environ.get('VERIF_REPO', '/repo'))
+            if tb and os.path.abspath(tb[-1].filename).startswith(repo + '/teneva/'):
+                where = '%s:%s' % (os.path.relpath(tb[-1].filename, repo), tb[-1].name)
+                return [('viol', 'raised:' + where, 'the library raised %s: %s in %s on an input of the check' % (type(ex).__name__, ex, where),
+                         {'task': repr(task)[:2000], 'traceback': traceback.format_exc()})]
+            raise
+
+
 def pmap(ctx, worker, tasks, nproc=None, chunksize=20):
     """Run worker(task) -> list of records in forked processes and merge the records into ctx.
     Records: ('case', key, nontrivial, sample) and ('viol', sig, detail, case)."""
     import multiprocessing as mp
     tasks = list(tasks)
+    worker = _Safe(worker)
     if nproc is None:
         nproc = min(14, max(1, len(tasks) // 200))
     if nproc <= 1 or len(tasks) < 50:
